@@ -155,6 +155,7 @@ type caseOut struct {
 	Sent      int64  `json:"sent"` // BytesSentCounter / BytesReceivedCounter after the run (gated, fwdcut)
 	Recv      int64  `json:"recv"`
 
+	Hashes bool    `json:"hashes"`          // tid mode: this tree derives long wire ids from the whole string
 	Ids   []string `json:"ids,omitempty"`   // tid mode: TunnelIDFromString(s) hex
 	Backs []string `json:"backs,omitempty"` // tid mode: TunnelIDToString(id) hex
 
@@ -188,6 +189,30 @@ func pad16(s []byte) [16]byte {
 	}
 	copy(id[:], s)
 	return id
+}
+
+// Which TunnelIDFromString does this tree have?  Probed behaviourally: two long ids that share their first 16 bytes.
+//   truncating (pinned): both get the same wire id (known finding wire-id-truncation)
+//   hashing (fixes/C10-wire-id-hash.diff): ids longer than 16 bytes get 16 bytes derived from the WHOLE string
+const probeA = "tcp-tunnel-1759260000000000000-8080"
+const probeB = "tcp-tunnel-1759263600000000000-9090"
+
+var treeHashes = func() bool {
+	a, _ := crossnode.TunnelIDFromString(probeA)
+	b, _ := crossnode.TunnelIDFromString(probeB)
+	return a != b
+}()
+
+// specID: the wire id the harness expects for a tunnel-id string.  Short ids (<= 16 bytes): verbatim, zero padded, on
+// both variants.  Long ids: the first 16 bytes on a truncating tree; on a hashing tree the tree's own function is the
+// hash oracle H (any hash will do) and what is checked is that H separates all the ids in use (wire-id-collision).
+func specID(s []byte) [16]byte {
+	if len(s) > 16 && treeHashes {
+		id, err := crossnode.TunnelIDFromString(string(s))
+		hmust(err)
+		return id
+	}
+	return pad16(s)
 }
 
 func tid16(h string) [16]byte {
@@ -554,7 +579,7 @@ func runReader(c *caseIn, wire []byte, dribble []int, limit int) readRes {
 // reference delivery: what the reading stream must deliver, from the script alone.
 // mineW decides which writers belong to the reader's tunnel; raw frames are matched on the 16 wire bytes.
 func reference(c *caseIn, mineW func(i int) bool) (exp []byte, hostile bool) {
-	rid := pad16(unhx(c.Reader))
+	rid := specID(unhx(c.Reader))
 	wclosed := map[int]bool{}
 	done := false
 	for _, op := range c.Ops {
@@ -668,11 +693,11 @@ func runStream(c *caseIn, out *caseOut) {
 		// the property on well-formed traffic: delivered bytes = bytes written to THIS tunnel (string identity),
 		// in order, complete, then end-of-stream; nothing of other tunnels / unknown frame types
 		if !bytes.Equal(got, expS) || rr.term != "eof" {
-			expW, _ := reference(c, func(i int) bool { return pad16(unhx(c.Writers[i])) == pad16(readerStr) })
+			expW, _ := reference(c, func(i int) bool { return specID(unhx(c.Writers[i])) == specID(readerStr) })
 			collide := false
 			for _, w := range c.Writers {
 				ws := unhx(w)
-				if !bytes.Equal(ws, readerStr) && pad16(ws) == pad16(readerStr) && (len(ws) > 16 || len(readerStr) > 16) {
+				if !treeHashes && !bytes.Equal(ws, readerStr) && pad16(ws) == pad16(readerStr) && (len(ws) > 16 || len(readerStr) > 16) {
 					collide = true
 				}
 			}
@@ -904,22 +929,34 @@ func runTid(c *caseIn, out *caseOut) {
 		if err != nil {
 			out.fail("wire-id-mapping", "TunnelIDFromString(%q) failed: %v", string(s), err)
 		}
-		if id != pad16(s) {
-			out.fail("wire-id-mapping", "TunnelIDFromString(%q) = %x, want the first 16 bytes zero padded", string(s), id)
+		again, _ := crossnode.TunnelIDFromString(string(s))
+		switch {
+		case again != id:
+			out.fail("wire-id-mapping", "TunnelIDFromString(%q) is not deterministic: %x then %x", string(s), id, again)
+		case len(s) <= 16 && id != pad16(s):
+			out.fail("wire-id-mapping", "TunnelIDFromString(%q) = %x, want the bytes verbatim, zero padded", string(s), id)
+		case len(s) > 16 && !treeHashes && id != pad16(s):
+			out.fail("wire-id-mapping", "TunnelIDFromString(%q) = %x, want the first 16 bytes (truncating tree)", string(s), id)
 		}
 		ids = append(ids, id)
 		out.Ids = append(out.Ids, hx(id[:]))
 		out.Backs = append(out.Backs, hx([]byte(crossnode.TunnelIDToString(id))))
 	}
+	out.Hashes = treeHashes
 	// the filter of FrameStream.Read can only separate tunnels whose wire ids differ
 	for i := range ids {
 		for j := i + 1; j < len(ids); j++ {
 			si, sj := unhx(c.Strs[i]), unhx(c.Strs[j])
 			if !bytes.Equal(si, sj) && ids[i] == ids[j] {
-				if len(si) > 16 || len(sj) > 16 {
-					out.fail("wire-id-truncation", "distinct tunnel ids %q and %q share wire id %q", string(si), string(sj), strings.TrimRight(string(ids[i][:]), "\x00"))
-				} else {
+				switch {
+				case len(si) <= 16 && len(sj) <= 16:
 					out.fail("wire-id-nul-padding", "distinct tunnel ids %q and %q share wire id %x", string(si), string(sj), ids[i])
+				case treeHashes:
+					// this tree separates the probe pair, i.e. it claims to derive long ids from the whole string
+					out.fail("wire-id-collision", "this tree derives long wire ids by hashing (the probe ids %q / %q differ) but distinct tunnel ids %q and %q share wire id %x",
+						probeA, probeB, string(si), string(sj), ids[i])
+				default:
+					out.fail("wire-id-truncation", "distinct tunnel ids %q and %q share wire id %q", string(si), string(sj), strings.TrimRight(string(ids[i][:]), "\x00"))
 				}
 			}
 		}
@@ -1024,7 +1061,13 @@ func gen() {
 	fmt.Printf("Definition sample_wire_tcp : list N := %s.\n", nl(tcpWire))
 	// TunnelIDFromString / TunnelIDToString on representative strings
 	strs := []string{"", "a", "my-tunnel-id", "1234567890123456", "12345678901234567", "tcp-tunnel-1759260000000000000-8080",
-		"tcp-tunnel-1759263600000000000-9090", "udp-tunnel-1759260000000000000-53", "socks5-tunnel-1759260000000000000-1080"}
+		"tcp-tunnel-1759263600000000000-9090", "tcp-tunnel-1759260000000000000-8081", "udp-tunnel-1759260000000000000-53", "socks5-tunnel-1759260000000000000-1080"}
+	v := 0
+	if treeHashes {
+		v = 1
+	}
+	fmt.Println("(* 0 = TunnelIDFromString truncates long ids to 16 bytes (pinned), 1 = long ids are hashed (probed on two ids with a common 16-byte prefix) *)")
+	fmt.Printf("Definition wire_id_variant : N := %d.\n", v)
 	fmt.Println("Definition wire_id_table : list (list N * list N * list N) := [")
 	for i, s := range strs {
 		id, err := crossnode.TunnelIDFromString(s)
